@@ -11,6 +11,7 @@ mod oracle3;
 mod prog;
 mod sim;
 mod tasks;
+mod teardown;
 
 use std::collections::HashMap;
 
